@@ -1,5 +1,6 @@
 CONSTANTS
 Caps = {1, 2}
+Wins = {"normal", "tiny"}
 Mutant = 0
 TolerateReuse = 0
 INIT Init
